@@ -177,6 +177,9 @@ def strategy():
             spec = {"topics": ["t0"], "start_at": draw(st.sampled_from([0.0, 0.0, 0.2, 0.8, 2.0])),
                     "callback_delay": draw(st.sampled_from([0, 0, 0.05])), "ops": [],
                     "max_poll_records": draw(st.sampled_from([None, 1, 2]))}
+            if draw(st.integers(0, 5)) == 0:
+                mod = draw(st.sampled_from([2, 3, 5]))
+                spec["deser_fail"] = {"mod": mod, "rem": draw(st.integers(0, mod - 1))}
             for _ in range(draw(st.integers(0, 14))):
                 r = draw(st.integers(0, 9))
                 if r <= 5:
